@@ -101,6 +101,11 @@ def systematic(tier):
             for first in range(len(REAL_TEXT_ALPHABET)):
                 out.append({'check': ID, 'exhaustive': True, 'real_text': form, 'decoder': dec, 'spec': None,
                             'first': first, 'max_len': 3 if tier == 'quick' else 4})
+    # very long INTEGER / ENUMERATED contents (beyond what CPython converts to decimal text by default), with no
+    # guide, a plain guide and a constrained guide
+    for dec in ('ber', 'cer', 'der'):
+        for spec in (None, {'k': 'INTEGER', 'tags': []}, {'k': 'INTEGER', 'tags': [], 'con': {'range': [0, 10]}}):
+            out.append({'check': ID, 'exhaustive': True, 'long_ints': True, 'decoder': dec, 'spec': spec, 'first': 0})
     # constructed strings: every list of at most two fragments (a fragment = right/wrong/nested identifier with
     # every content of length <= 2 over a small alphabet, or an empty nested constructed fragment), in the
     # definite and the indefinite form, for three string types, with and without the type as guide
@@ -337,7 +342,14 @@ def _exhaustive(plan):
     dec = U.decoder_module(plan['decoder'])
     spec = U.build_schema(plan['spec']) if plan['spec'] is not None else None
     first = plan['first']
-    if plan.get('real_text') is not None:
+    if plan.get('long_ints'):
+        strings = []
+        for tag_ in (0x02, 0x0a):
+            for n in (300, 1785, 1790, 2000, 5000):
+                for fill in (0x7f, 0xff, 0x80, 0x01):
+                    body = bytes([fill]) + bytes([0x5a]) * (n - 1)
+                    strings.append(bytes([tag_]) + bytes.fromhex(corrupt._enc_len(n)) + body)
+    elif plan.get('real_text') is not None:
         strings = _real_text_strings(plan['real_text'], first, plan.get('max_len', 3))
     elif plan.get('fragments_of') is not None:
         strings = _fragment_strings(plan['fragments_of'], plan['form'])
